@@ -148,6 +148,13 @@ def run(ctx):
     # the largest payloads an encode request can carry, compressible: the credential is small, so it fits a decode request
     for n in ((1048536, 1048555, 1048556) if ctx.thorough else (1048556,)):
         roundtrip(cr, 4, 5, 3, (b"largest compressible payload " * (n // 29 + 1))[:n], kind="largest-compressed")
+    # extreme compression ratios (round 8: a "decompression-bomb" limit valid for zlib only refused bzlib's own output):
+    # long runs of one byte value and short periods, both libraries, with and without a cipher
+    for n in ((100000, 300000, 700000, 1048556) if ctx.thorough else (300000, 1048556)):
+        for z in (2, 3):
+            for ci, (c, data) in enumerate(((0, bytes(n)), (4, b"\xaa" * n), (5, (b"ab" * (n // 2 + 1))[:n]))):
+                if ctx.thorough or ci != (2 if z == 2 else 1):
+                    roundtrip(cr, c, 5, z, data, kind="high-ratio")
     # TTLs, restrictions, identities
     for ttl in (0, 1, 299, 300, 301, 3599, 3600, 3601, 2 ** 31, 2 ** 32 - 1):
         roundtrip(cr, 4, 5, 0, b"ttl", ttl=ttl, kind="ttl")
